@@ -31,6 +31,7 @@ def run(ctx):
     bulk(ctx, fx)
     obim(ctx, fx)
     obim_master_log(ctx, fx)
+    obim_leftover_min(ctx, fx)
     executor(ctx, fx)
 
 
@@ -412,6 +413,41 @@ def obim(ctx, fx):
                 det.append("returns %s" % sorted(rets))
         ctx.ob("C08.obim.empty-agreement", OBIM + "::empty", not det, "; ".join(sorted(set(det))), fn.loc(), "empty",
                fnkey=f["key"])
+
+
+def obim_leftover_min(ctx, fx):
+    ctx.rule("C08.obim.leftovers-always-proposed",
+             "barrier-OBIM empty(): the level a thread proposes is the earliest of ALL its stored (popped but not yet run) items "
+             "-- whenever something is put into `stored` in this call, the minimum scan over `stored` follows before the first "
+             "barrier wait, and the scan is guarded only by `stored` being non-empty (not by the global pop having found "
+             "nothing): a thread holding a leftover of an earlier level that proposes only the level it has just found lets all "
+             "threads agree on a later level while the leftover is uncommitted")
+    fs = [f for f in insts(fx, OBIM + "::empty") if any(True for _ in Fn(f).events(is_call(name="wait")))]
+    ctx.floor("barrier-mode OBIM empty()", len(fs), 1)
+    for f in fs:
+        fn = ctx.fn(f)
+        det = []
+        wait = is_call(name="wait")
+        put = [p for p, e in fn.events(lambda e: e.get("k") == "call" and e.get("name") in ("push_back", "emplace_back") and
+                                       S(e.get("recv") or {}).endswith("stored"))]
+        # the scan: a loop over `stored` (range-for binds the container to a reference first)
+        scan = lambda e: (e.get("k") == "decl" and e.get("ref") and S(e.get("init") or {}).endswith("stored")) or \
+            (e.get("k") == "call" and e.get("name") in ("begin", "cbegin") and S(e.get("recv") or {}).endswith("stored"))
+        if not any(True for _ in fn.events(scan)):
+            det.append("no scan over the stored items")
+        nonempty = lambda t: "neg" if (t.get("k") == "call" and t.get("name") == "empty" and S(t.get("recv") or {}).endswith("stored")) else False
+        ge_ne = fn.guard_edges(nonempty, False)        # edges on which stored is known EMPTY: infeasible once something was stored
+        for p in put:
+            if fn.reaches_without(wait, scan, starts=[fn.after(p)], edge_ok=lambda b, i, s_: (b, i) not in ge_ne):
+                det.append("an item is stored (line %s) and the barrier is reached without the minimum over all stored items "
+                           "being taken: an older leftover of an earlier level is not proposed" % fn.ev(p).get("l"))
+        # with stored non-empty the scan cannot be bypassed
+        first_wait = [p for p, _ in fn.events(wait)]
+        if first_wait:
+            hh, _ = fn.search([fn.entry_state()], stop=lambda e: wait(e) or scan(e), edge_ok=lambda b, i, s_: (b, i) not in ge_ne)
+            if any(wait(fn.ev(y)) for y in hh):
+                det.append("the barrier is reachable with stored items but without the minimum scan")
+        ctx.ob("C08.obim.leftovers-always-proposed", f["qn"], not det, "; ".join(sorted(set(det))[:2]), fn.loc(), "stored", fnkey=f["key"])
 
 
 def obim_master_log(ctx, fx):
